@@ -2263,7 +2263,7 @@ def map_key(m, k):
     raise EncoderGap('map key %r' % (k,))
 
 
-@reg('HashMap.Default::default', 'HashMap::new', 'HashMap::default', 'HashMap::with_hasher', 'HashMap::with_capacity_and_hasher')
+@reg('HashMap.Default::default', 'HashMap::new', 'HashMap::default', 'HashMap::with_hasher', 'HashMap::with_capacity_and_hasher', 'HashMap::with_capacity')
 def hashmap_new(m, a, ci):
     return MapV()
 
